@@ -688,7 +688,17 @@ fn rejection_class(problem: &Value, solution: &Value, error: &str) -> String {
             let first_is_reload = |si: usize| stops.get(si).is_some_and(|s| s["activities"][0]["type"].as_str() == Some("reload"));
             (0..stops.len()).any(|si| (si == 0 || first_is_reload(si)) && first_is_reload(si + 1))
         });
-        return if one_stop { "load-with-interval-of-one-stop".into() } else { "load-unexplained".into() };
+        if one_stop {
+            return "load-with-interval-of-one-stop".into();
+        }
+        // ... or (resource complaint) a shift with two reloads at one location of which only one is bound to the resource:
+        // which of them a reported reload activity stands for is the matcher's guess (the recorded ambiguity finding)
+        let ambiguous_resource_reloads = resource_complaint
+            && problem["fleet"]["vehicles"].as_array().into_iter().flatten().flat_map(|v| v["shifts"].as_array().into_iter().flatten()).any(|shift| {
+                let reloads = shift.get("reloads").and_then(|r| r.as_array()).cloned().unwrap_or_default();
+                reloads.iter().enumerate().any(|(i, a)| reloads.iter().skip(i + 1).any(|b| a["location"] == b["location"] && a.get("resourceId") != b.get("resourceId")))
+            });
+        return if ambiguous_resource_reloads { "unmatched-ambiguous-place-or-window".into() } else { "load-unexplained".into() };
     }
     normalise(error)
 }
